@@ -4,6 +4,7 @@ import Vuego.Driver.DomJson
 import Vuego.Driver.PageOp
 import Vuego.Driver.EntryOp
 import Vuego.Driver.LayoutOp
+import Vuego.Driver.LayoutDataOp
 import Vuego.Driver.CacheOp
 import Vuego.Driver.MergeOp
 import Vuego.Driver.FmtOp
@@ -23,6 +24,7 @@ def handle (j : Json) : Json :=
   | "expr" => exprOp j
   | "writer" => writerOp j
   | "layout" => layoutOp j
+  | "layoutdata" => layoutDataOp j
   | "cache" => cacheOp j
   | "merge" => mergeOp j
   | "fmt" => fmtOp j
